@@ -31,6 +31,10 @@ WHAT = {
 }
 
 
+class EscapeAttempt(Exception):
+  pass
+
+
 def sym_of_char(c):
   if c in SYM:
     return SYM[c]
@@ -128,9 +132,16 @@ def run(ctx):
       inside = 1
       if k % ctx.pick(9, 3) == 0:
         try:
+          target = os.path.realpath(os.path.normpath(path))
+          if not target.startswith(root + os.sep):
+            # never let a broken path function write outside the scratch directory: the verdict is
+            # already decided by where the file WOULD be created
+            raise EscapeAttempt()
           wdb.create(name, [(60, 10)], 0.5, 'average')
           rp = os.path.realpath(path)
           inside = 1 if (rp.startswith(root + os.sep) and os.path.exists(rp)) else 0
+        except EscapeAttempt:
+          inside = 0
         except (OSError, ValueError) as e:
           inside = 1            # nothing was created (name too long / embedded NUL)
       dec = TaggedSeries.decode(TaggedSeries.encode(name, os.sep, False), os.sep) if ';' not in name else name
